@@ -826,7 +826,7 @@ parse_btt(vbi_decoder *vbi, uint8_t *raw, int packet)
 		break;
 	}
 
-	case 21 ... 23:
+	case 21 ... 22:
 	    {
 		struct ttx_page_link *pl;
 		int i;
